@@ -375,6 +375,16 @@ func (b *builder) structProtos() []protoStruct {
 			}})
 		}
 	}
+	// tag-boundary pairs: an optional member (absent when at its default) directly
+	// before a member whose head is the 1-byte / 2-byte (extended, tag >= 15) form
+	for _, tp := range [][2]int{{0, 14}, {0, 15}, {14, 15}, {14, 16}, {15, 16}, {15, 255}, {16, 17}, {1, 2}} {
+		for _, secondReq := range []bool{true, false} {
+			tp, secondReq := tp, secondReq
+			out = append(out, protoStruct{"tagpair", func(cur string) []Member {
+				return []Member{mem(cur, tp[0], false, "f0", scalar(KInt), nil), mem(cur, tp[1], secondReq, "f1", scalar(KString), nil)}
+			}})
+		}
+	}
 	// one wide struct: every leaf kind with and without default, containers, tags with gaps, declared shuffled
 	out = append(out, protoStruct{"wide", func(cur string) []Member {
 		var ms []Member
